@@ -157,7 +157,11 @@ class Check:
         info['harness_names'] = hs
         info['cxx'] = cxx; info['ok'] = True; info['unit'] = u
         if u.tv:
-            s.build_native(info, 'gen'); s.build_native(info, 'real')
+            s.build_native(info, 'gen')
+        # the real g++ build is needed for replay: build it now so that a harness/wrapper mismatch shows on the unchanged tree, not only when a
+        # counterexample has to be confirmed
+        info['real_build_ok'] = bool(s.build_native(info, 'real'))
+        if not info['real_build_ok']: s.undecided.append('unit %s: the real g++ build used for replay does not build' % u.name)
         return info
 
     def build_native(s, info, which):
